@@ -165,7 +165,10 @@ where
         sum += count as f64 * distance as f64;
     }
 
-    if count == 0 {
+    // Nodes at distance zero (their id is the target, as far as the estimate can see) say
+    // nothing about how dense the id space is: without any other node there is no estimate, and
+    // dividing by the zero sum would give an infinite sample that poisons the running sums.
+    if count == 0 || sum == 0.0 {
         return 0.0;
     }
 
